@@ -2711,7 +2711,7 @@ Theorem compare_stale_cycle_refuted :
   exists (ops : list op) (s o : nat),
     forallb covered ops = true /\ adm_hist [] ops = true /\
     let h := run [] ops in
-    wf_b h = true /\ root_of h s = root_of h o /\ spec_compare h s o = POS_FOLLOWING /\ compare_pos h s o = VHang.
+    wf_b h = true /\ root_of h s = root_of h o /\ spec_compare_dewey h s o = POS_FOLLOWING /\ compare_pos h s o = VHang.
 Proof. exists stale_cycle_history, 3, 5. vm_compute. repeat split. Qed.
 
 Theorem text_content_spec_b : forall (h : heap) (n : nat), wf_b h = true -> n < length h ->
@@ -2721,3 +2721,338 @@ Proof. intros h n W V. apply wf_b_iff in W. apply text_content_spec; auto. Qed.
 Theorem by_tag_spec_b : forall (h : heap) (n : nat) (name : Z), wf_b h = true -> no_attrs h = true -> n < length h ->
     by_tag (S (length h)) h n name = Some (filter (fun x => has_name h x name) (tl (dfs (S (length h)) h n))).
 Proof. intros h n name W N V. apply wf_b_iff in W. apply no_attrs_noattr in N. apply by_tag_spec; auto. Qed.
+
+(* ====================================================================================================== *)
+(* S. compareDocumentPosition on a tree whose root carries no stale parentNode link *)
+
+Fixpoint take_until (x : nat) (l : list nat) : list nat :=
+  match l with [] => [] | y :: r => if Nat.eqb y x then [] else y :: take_until x r end.
+
+(* the raw parentNode walk of _compareDocumentPosition follows the tree edges when no stale link is met *)
+Lemma walk_up_chain : forall h stop fuel n acc,
+  (forall m, In m (chain fuel h n) -> parent h m = up h m) -> rooted fuel h n = true ->
+  walk_up fuel h stop n acc =
+    if mem stop (chain fuel h n) then Some (true, rev (take_until stop (chain fuel h n)) ++ acc)
+    else Some (false, rev (chain fuel h n) ++ acc).
+Proof.
+  induction fuel; intros n acc P R; simpl in *; try discriminate.
+  destruct (Nat.eqb_spec n stop) as [->|N].
+  - rewrite Nat.eqb_refl. simpl. auto.
+  - assert (E : Nat.eqb stop n = false) by (apply Nat.eqb_neq; auto). rewrite E. simpl.
+    rewrite (P n (or_introl eq_refl)). destruct (up h n) as [p|] eqn:U.
+    + rewrite IHfuel; auto.
+      destruct (mem stop (chain fuel h p)); simpl; rewrite <- app_assoc; auto.
+    + simpl. auto.
+Qed.
+
+Lemma first_of_spec : forall s o l, s <> o -> In s l -> In o l ->
+  exists a b, index_of s l = Some a /\ index_of o l = Some b /\
+              first_of s o l = Some (if Nat.ltb a b then POS_FOLLOWING else POS_PRECEDING).
+Proof.
+  induction l as [|y l IH]; intros N Is Io; try contradiction. simpl.
+  destruct (Nat.eqb_spec y s) as [->|Ns].
+  - destruct (Nat.eqb_spec s o); try congruence.
+    destruct Io as [Io|Io]; try congruence.
+    destruct (index_of o l) as [b|] eqn:Eb. 2:{ apply index_of_None in Eb. contradiction. }
+    exists 0, (S b). auto.
+  - destruct (Nat.eqb_spec y o) as [->|No].
+    + destruct Is as [Is|Is]; try congruence.
+      destruct (index_of s l) as [a|] eqn:Ea. 2:{ apply index_of_None in Ea. contradiction. }
+      exists (S a), 0. auto.
+    + destruct Is as [Is|Is]; try congruence. destruct Io as [Io|Io]; try congruence.
+      destruct (IH N Is Io) as (a & b & A & B & C). rewrite A, B, C. exists (S a), (S b). auto.
+Qed.
+
+Lemma cmp_inner_skip : forall h y sn Q1 R, ~ In y Q1 -> cmp_inner h y sn (Q1 ++ R) = cmp_inner h y sn R.
+Proof.
+  induction Q1 as [|q Q1 IH]; intros R N; simpl; auto.
+  destruct (Nat.eqb_spec y q) as [->|Ne]. exfalso. apply N. simpl; auto.
+  apply IH. intro. apply N. simpl; auto.
+Qed.
+
+Lemma cmp_inner_absent : forall h y sn Q, ~ In y Q -> cmp_inner h y sn Q = CNext.
+Proof. intros. rewrite <- (app_nil_r Q). rewrite cmp_inner_skip; auto. Qed.
+
+(* two root-first paths with a common part [pre ++ [a]] that then part into s' and o' *)
+Lemma cmp_outer_paths : forall h a s' o' P2 Q2 pre done,
+  s' <> o' -> NoDup (done ++ pre ++ a :: s' :: P2) -> NoDup (done ++ pre ++ a :: o' :: Q2) ->
+  In s' (children h a) -> In o' (children h a) ->
+  cmp_outer h (pre ++ a :: s' :: P2) (done ++ pre ++ a :: o' :: Q2) =
+  match first_of s' o' (children h a) with Some z => CVal z | None => CNext end.
+Proof.
+  intros h a s' o' P2 Q2. induction pre as [|x pre IH]; intros done N NP NQ Is Io.
+  - simpl app. cbn [cmp_outer hd_error].
+    assert (Nd : ~ In a done).
+    { intro I. apply NoDup_app_remove_r in NQ || idtac. clear - NQ I. induction done; simpl in *; try contradiction.
+      inversion NQ; subst. destruct I as [->|I]. apply H1. apply in_app_iff. right. simpl; auto. apply IHdone; auto. }
+    rewrite cmp_inner_skip by auto. cbn [cmp_inner hd_error]. rewrite Nat.eqb_refl.
+    apply Nat.eqb_neq in N. rewrite N.
+    destruct (first_of_spec s' o' (children h a)) as (i & j & A & B & C); auto. apply Nat.eqb_neq; auto.
+    rewrite C. auto.
+  - simpl app. cbn [cmp_outer].
+    (* x sits at the same place in both paths and is followed by the same node: skipped *)
+    assert (Hd : hd_error (pre ++ a :: s' :: P2) = hd_error (pre ++ a :: o' :: Q2)) by (destruct pre; auto).
+    assert (Nx : ~ In x done /\ ~ In x (pre ++ a :: o' :: Q2)).
+    { clear - NQ. induction done; simpl in *.
+      - inversion NQ; auto.
+      - inversion NQ; subst. destruct (IHdone H2) as [A B]. split; auto. intros [->|I]; auto.
+        apply H1. apply in_app_iff. right. simpl; auto. }
+    destruct Nx as [Nx1 Nx2].
+    rewrite cmp_inner_skip by auto. cbn [cmp_inner]. rewrite Nat.eqb_refl. rewrite <- Hd.
+    destruct (hd_error (pre ++ a :: s' :: P2)) as [z|] eqn:Ez.
+    2:{ destruct pre; discriminate. }
+    rewrite Nat.eqb_refl. rewrite cmp_inner_absent by auto.
+    replace (done ++ x :: pre ++ a :: o' :: Q2) with ((done ++ [x]) ++ pre ++ a :: o' :: Q2) by (rewrite <- app_assoc; auto).
+    apply IH; auto; rewrite <- app_assoc; auto.
+Qed.
+
+Lemma path_idx_split : forall h pre a x R,
+  path_idx h (pre ++ a :: x :: R) =
+  path_idx h (pre ++ [a]) ++ match index_of x (children h a) with Some k => k | None => 0 end :: path_idx h (x :: R).
+Proof.
+  induction pre as [|p pre IH]; intros. reflexivity.
+  destruct pre as [|q pre']. reflexivity.
+  change (path_idx h ((p :: q :: pre') ++ a :: x :: R)) with
+    (match index_of q (children h p) with Some k => k | None => 0 end :: path_idx h ((q :: pre') ++ a :: x :: R)).
+  rewrite IH. reflexivity.
+Qed.
+
+Lemma lex_lt_prefix : forall c i j u v, i <> j -> lex_lt (c ++ i :: u) (c ++ j :: v) = Nat.ltb i j.
+Proof.
+  induction c as [|x c IH]; intros; simpl.
+  - apply Nat.eqb_neq in H. rewrite H. simpl. apply orb_false_r.
+  - rewrite Nat.ltb_irrefl, Nat.eqb_refl. simpl. apply IH; auto.
+Qed.
+
+Lemma diverge : forall (P' Q' : list nat) r,
+  ~ (exists t, r :: Q' = (r :: P') ++ t) -> ~ (exists t, r :: P' = (r :: Q') ++ t) ->
+  exists pre a x y P2 Q2, r :: P' = pre ++ a :: x :: P2 /\ r :: Q' = pre ++ a :: y :: Q2 /\ x <> y.
+Proof.
+  induction P' as [|x P'' IH]; intros Q' r NP NQ.
+  - exfalso. apply NP. exists Q'. auto.
+  - destruct Q' as [|y Q''].
+    + exfalso. apply NQ. exists (x :: P''). auto.
+    + destruct (Nat.eq_dec x y) as [->|N].
+      * destruct (IH Q'' y) as (pre & a & x' & y' & P2 & Q2 & E1 & E2 & N').
+        { intros [t E]. apply NP. exists t. simpl in *. f_equal. auto. }
+        { intros [t E]. apply NQ. exists t. simpl in *. f_equal. auto. }
+        exists (r :: pre), a, x', y', P2, Q2. simpl. rewrite E1, E2. auto.
+      * exists [], r, x, y, P'', Q''. auto.
+Qed.
+
+Lemma chain_consecutive : forall h F n l1 y x l2, chain F h n = l1 ++ y :: x :: l2 -> up h y = Some x.
+Proof.
+  induction F; intros n l1 y x l2 E; simpl in E. destruct l1; discriminate.
+  destruct l1 as [|z l1]; simpl in E.
+  - inversion E; subst. destruct (up h y) as [p|] eqn:U; try discriminate.
+    destruct F; simpl in H1; try discriminate. inversion H1; subst. auto.
+  - inversion E; subst. destruct (up h z) as [p|] eqn:U. eapply IHF; eauto. destruct l1; discriminate.
+Qed.
+
+Lemma last_default : forall (l : list nat) a b, l <> [] -> last l a = last l b.
+Proof. induction l as [|x l IH]; intros; try congruence. destruct l; auto. simpl in *. apply IH. discriminate. Qed.
+
+Lemma chain_last_root : forall h F n m, rooted F h n = true -> In m (chain F h n) -> up h m = None ->
+  m = last (chain F h n) n.
+Proof.
+  induction F; intros n m R I U; simpl in R; try discriminate.
+  simpl chain in *. destruct (up h n) as [p|] eqn:Un.
+  - destruct I as [<-|I]; try congruence.
+    assert (Ne : chain F h p <> []) by (destruct F; simpl in *; discriminate).
+    rewrite (IHF p m R I U). destruct (chain F h p) eqn:E; try congruence.
+    change (last (n :: n0 :: l) n) with (last (n0 :: l) n). apply last_default. discriminate.
+  - destruct I as [<-|[]]. auto.
+Qed.
+
+Lemma chain_head : forall h F n, chain (S F) h n = n :: tl (chain (S F) h n).
+Proof. intros. simpl. auto. Qed.
+
+Lemma index_of_inj : forall x y l k, index_of x l = Some k -> index_of y l = Some k -> x = y.
+Proof.
+  intros. apply index_of_Some in H. apply index_of_Some in H0. destruct H as [A _]. destruct H0 as [B _]. congruence.
+Qed.
+
+Lemma In_index_of : forall x l, In x l -> exists k, index_of x l = Some k.
+Proof. intros. destruct (index_of x l) eqn:E; eauto. apply index_of_None in E. contradiction. Qed.
+
+Section Compare.
+  Context (h : heap) (W : wf h).
+  Let L := length h.
+
+  Lemma cmp_rooted : forall n, n < L -> rooted L h n = true.
+  Proof. intros. apply rooted_bound; auto. apply wf_acyclic; auto. Qed.
+
+  Lemma cmp_chain_S : forall n, n < L -> chain (S L) h n = chain L h n.
+  Proof. intros. apply rooted_chain_stable; auto. apply cmp_rooted; auto. Qed.
+
+  Lemma cmp_clean : forall n, n < L -> parent h (root_of h n) = None -> forall m, In m (chain L h n) -> parent h m = up h m.
+  Proof.
+    intros n V C m I. destruct (up h m) as [p|] eqn:U.
+    - apply up_Some in U. tauto.
+    - rewrite (chain_last_root h L n m (cmp_rooted n V) I U). apply C.
+  Qed.
+
+  (* what a decomposition of the two root-first paths at the place where they part gives *)
+  Lemma from_decomp : forall s o pre a s' o' P2 Q2, s < L -> o < L ->
+    rev (chain L h s) = pre ++ a :: s' :: P2 -> rev (chain L h o) = pre ++ a :: o' :: Q2 -> s' <> o' ->
+    In s' (children h a) /\ In o' (children h a) /\
+    exists i j, index_of s' (children h a) = Some i /\ index_of o' (children h a) = Some j /\ i <> j /\
+                lex_lt (dewey h o) (dewey h s) = Nat.ltb j i.
+  Proof.
+    intros s o pre a s' o' P2 Q2 Vs Vo Es Eo N.
+    assert (Cs : chain L h s = rev P2 ++ s' :: a :: rev pre).
+    { rewrite <- (rev_involutive (chain L h s)), Es. rewrite rev_app_distr. simpl. rewrite <- !app_assoc. auto. }
+    assert (Co : chain L h o = rev Q2 ++ o' :: a :: rev pre).
+    { rewrite <- (rev_involutive (chain L h o)), Eo. rewrite rev_app_distr. simpl. rewrite <- !app_assoc. auto. }
+    pose proof (chain_consecutive _ _ _ _ _ _ _ Cs) as Us. pose proof (chain_consecutive _ _ _ _ _ _ _ Co) as Uo.
+    apply up_Some in Us. apply up_Some in Uo. destruct Us as (_ & _ & Is). destruct Uo as (_ & _ & Io).
+    split; auto. split; auto.
+    destruct (In_index_of _ _ Is) as [i Ei]. destruct (In_index_of _ _ Io) as [j Ej].
+    exists i, j. repeat split; auto.
+    - intros ->. apply N. eapply index_of_inj; eauto.
+    - unfold dewey. fold L. rewrite Es, Eo, !path_idx_split, Ei, Ej. apply lex_lt_prefix.
+      intros ->. apply N. eapply index_of_inj; eauto.
+  Qed.
+End Compare.
+
+Lemma nth_error_index_of : forall (l : list nat) k x, NoDup l -> nth_error l k = Some x -> index_of x l = Some k.
+Proof.
+  induction l as [|y l IH]; intros k x N E; destruct k; simpl in *; try discriminate.
+  - inversion E. subst. rewrite Nat.eqb_refl. auto.
+  - inversion N; subst. destruct (Nat.eqb_spec y x) as [->|Ne].
+    + exfalso. apply H1. eapply nth_error_In; eauto.
+    + rewrite (IH k x H2 E). auto.
+Qed.
+
+Lemma rev_head_last : forall (l : list nat) d, l <> [] -> exists t, rev l = last l d :: t.
+Proof.
+  intros l d N. destruct (exists_last N) as (l' & x & ->). rewrite rev_app_distr, last_last. simpl. eauto.
+Qed.
+
+Lemma chain_nonempty : forall h n, 0 < length h -> chain (length h) h n <> [].
+Proof. intros. destruct (length h); try lia. simpl. discriminate. Qed.
+
+Lemma chain_step_same_fuel : forall h x p, wf h -> x < length h -> up h x = Some p ->
+  chain (length h) h x = x :: chain (length h) h p.
+Proof.
+  intros h x p W V U. rewrite <- (cmp_chain_S h W x V). simpl. rewrite U. auto.
+Qed.
+
+(* two children of one node: the decomposition is explicit *)
+Lemma sibling_decomp : forall h p x, wf h -> x < length h -> up h x = Some p ->
+  exists pre, rev (chain (length h) h x) = pre ++ p :: x :: [].
+Proof.
+  intros h p x W V U. rewrite (chain_step_same_fuel h x p W V U).
+  pose proof (up_valid _ _ _ U) as Vp.
+  assert (E : chain (length h) h p = p :: tl (chain (length h) h p)) by (destruct (length h); [lia|reflexivity]).
+  rewrite E. simpl. exists (rev (tl (chain (length h) h p))). rewrite <- app_assoc. auto.
+Qed.
+
+Theorem compare_clean : forall h s o, wf h -> s < length h -> o < length h -> listed_in_frag h s = false ->
+  root_of h s = root_of h o -> parent h (root_of h s) = None ->
+  compare_pos h s o = VVal (spec_compare_dewey h s o).
+Proof.
+  intros h s o W Vs Vo Lf Rt Cl.
+  pose proof (cmp_rooted h W s Vs) as Rs. pose proof (cmp_rooted h W o Vo) as Ro.
+  pose proof (cmp_clean h W s Vs Cl) as Cls. rewrite Rt in Cl. pose proof (cmp_clean h W o Vo Cl) as Clo.
+  unfold compare_pos, spec_compare_dewey.
+  destruct (negb (opt_eqb (owner h s) (owner h o))); auto.
+  destruct (siblings_spec h s Lf) as [Nx Pv].
+  (* facts about an adjacent sibling at index k / S k *)
+  assert (SIB : forall p i j, up h s = Some p -> index_of s (children h p) = Some i -> nth_error (children h p) j = Some o -> i <> j ->
+            mem o (chain (length h) h s) = false /\ mem s (chain (length h) h o) = false /\
+            lex_lt (dewey h o) (dewey h s) = Nat.ltb j i).
+  { intros p i j Us Is Io Nij.
+    pose proof (up_Some _ _ _ Us) as (_ & Tp & Ins).
+    assert (Ino : In o (children h p)) by (eapply nth_error_In; eauto).
+    assert (Uo : up h o = Some p) by (apply up_lists; auto).
+    assert (Jo : index_of o (children h p) = Some j) by (apply nth_error_index_of; auto; eapply wf_nodup; eauto).
+    assert (Nso : s <> o) by (intros ->; congruence).
+    rewrite (chain_step_same_fuel h s p W Vs Us), (chain_step_same_fuel h o p W Vo Uo).
+    split; [|split].
+    - apply mem_false. intros [E|I]; [congruence|]. exact (child_not_ancestor h p o W Tp Ino _ I).
+    - apply mem_false. intros [E|I]; [congruence|]. exact (child_not_ancestor h p s W Tp Ins _ I).
+    - destruct (sibling_decomp h p s W Vs Us) as [pre Es]. destruct (sibling_decomp h p o W Vo Uo) as [pre' Eo].
+      assert (pre' = pre).
+      { pose proof Es as Es'. pose proof Eo as Eo'.
+        rewrite (chain_step_same_fuel h s p W Vs Us) in Es'. rewrite (chain_step_same_fuel h o p W Vo Uo) in Eo'.
+        simpl in Es', Eo'.
+        assert (A : rev (chain (length h) h p) = pre ++ [p]) by (apply app_inj_tail with (a:=s) (b:=s); rewrite Es', <- app_assoc; auto).
+        assert (B : rev (chain (length h) h p) = pre' ++ [p]) by (apply app_inj_tail with (a:=o) (b:=o); rewrite Eo', <- app_assoc; auto).
+        rewrite A in B. apply app_inj_tail in B. destruct B; auto. }
+      subst pre'.
+      destruct (from_decomp h s o pre p s o [] [] Vs Vo Es Eo Nso) as (_ & _ & i' & j' & Ei & Ej & _ & Lx).
+      rewrite Lx. congruence. }
+  destruct (Nat.eq_dec s o) as [->|Ne].
+  - (* the same node: it is neither its own previous nor its own next sibling *)
+    rewrite Nat.eqb_refl.
+    assert (P1 : opt_eqb (prev_sibling h o) (Some o) = false).
+    { destruct (opt_eqb (prev_sibling h o) (Some o)) eqn:E; auto. apply opt_eqb_eq in E. rewrite Pv in E.
+      unfold spec_prev, nth_opt in E. destruct (up h o) as [p|] eqn:U; try discriminate.
+      destruct (index_of o (children h p)) as [[|k]|] eqn:I; try discriminate.
+      apply index_of_Some in I. destruct I as (_ & _ & Nf). exfalso. apply Nf.
+      assert (Lk : k < length (children h p)) by (apply nth_error_Some; congruence).
+      rewrite <- (firstn_skipn k (children h p)) in E. rewrite nth_error_app2 in E by (rewrite firstn_length_le; lia).
+      rewrite firstn_length_le, Nat.sub_diag in E by lia.
+      destruct (skipn k (children h p)) eqn:Sk; simpl in E; try discriminate. inversion E; subst.
+      replace (S k) with (k + 1) by lia. rewrite <- (firstn_skipn k (children h p)) at 1.
+      rewrite firstn_app, firstn_firstn, firstn_length_le by lia. rewrite Nat.min_r by lia.
+      replace (k + 1 - k) with 1 by lia. apply in_app_iff. right. rewrite Sk. simpl. auto. }
+    assert (P2 : opt_eqb (next_sibling h o) (Some o) = false).
+    { destruct (opt_eqb (next_sibling h o) (Some o)) eqn:E; auto. apply opt_eqb_eq in E. rewrite Nx in E.
+      unfold spec_next, nth_opt in E. destruct (up h o) as [p|] eqn:U; try discriminate.
+      destruct (index_of o (children h p)) as [k|] eqn:I; try discriminate.
+      pose proof (up_Some _ _ _ U) as (_ & Tp & _).
+      pose proof (nth_error_index_of _ _ _ (wf_nodup _ W _ Tp) E). rewrite I in H. inversion H. lia. }
+    rewrite P1, P2. auto.
+  - assert (Ne' : Nat.eqb s o = false) by (apply Nat.eqb_neq; auto). rewrite Ne'.
+    destruct (opt_eqb (prev_sibling h s) (Some o)) eqn:Ep.
+    + apply opt_eqb_eq in Ep. rewrite Pv in Ep. unfold spec_prev, nth_opt in Ep.
+      destruct (up h s) as [p|] eqn:U; try discriminate.
+      destruct (index_of s (children h p)) as [[|k]|] eqn:I; try discriminate.
+      destruct (SIB p (S k) k eq_refl I Ep ltac:(lia)) as (A & B & C). rewrite A, B, C.
+      assert (Q : Nat.ltb k (S k) = true) by (apply Nat.ltb_lt; lia). rewrite Q. auto.
+    + destruct (opt_eqb (next_sibling h s) (Some o)) eqn:En.
+      * apply opt_eqb_eq in En. rewrite Nx in En. unfold spec_next, nth_opt in En.
+        destruct (up h s) as [p|] eqn:U; try discriminate.
+        destruct (index_of s (children h p)) as [k|] eqn:I; try discriminate.
+        destruct (SIB p k (S k) eq_refl I En ltac:(lia)) as (A & B & C). rewrite A, B, C.
+        assert (Q : Nat.ltb (S k) k = false) by (apply Nat.ltb_ge; lia). rewrite Q. auto.
+      * (* the general case: two walks up, then the paths are compared from the root *)
+        rewrite (walk_up_chain h o (S (length h)) s []).
+        2:{ rewrite (cmp_chain_S h W s Vs). auto. }
+        2:{ apply rooted_mono with (f := length h); auto. }
+        rewrite (cmp_chain_S h W s Vs).
+        destruct (mem o (chain (length h) h s)) eqn:Mo; auto.
+        rewrite (walk_up_chain h s (S (length h)) o []).
+        2:{ rewrite (cmp_chain_S h W o Vo). auto. }
+        2:{ apply rooted_mono with (f := length h); auto. }
+        rewrite (cmp_chain_S h W o Vo).
+        destruct (mem s (chain (length h) h o)) eqn:Ms; auto.
+        rewrite !app_nil_r.
+        assert (Lpos : 0 < length h) by lia.
+        destruct (rev_head_last (chain (length h) h s) s (chain_nonempty h s Lpos)) as [P' EP].
+        destruct (rev_head_last (chain (length h) h o) o (chain_nonempty h o Lpos)) as [Q' EQ].
+        fold (root_of h s) in EP. fold (root_of h o) in EQ. rewrite <- Rt in EQ.
+        assert (Ins : In s (rev (chain (length h) h s))).
+        { apply in_rev. rewrite rev_involutive. destruct (length h); [lia|simpl; auto]. }
+        assert (Ino : In o (rev (chain (length h) h o))).
+        { apply in_rev. rewrite rev_involutive. destruct (length h); [lia|simpl; auto]. }
+        destruct (diverge P' Q' (root_of h s)) as (pre & a & s' & o' & P2 & Q2 & E1 & E2 & N').
+        { rewrite <- EP, <- EQ. intros [t E]. apply mem_false in Ms. apply Ms. apply in_rev. rewrite E. apply in_app_iff. auto. }
+        { rewrite <- EP, <- EQ. intros [t E]. apply mem_false in Mo. apply Mo. apply in_rev. rewrite E. apply in_app_iff. auto. }
+        rewrite <- EP in E1. rewrite <- EQ in E2.
+        destruct (from_decomp h s o pre a s' o' P2 Q2 Vs Vo E1 E2 N') as (Is' & Io' & i & j & Ei & Ej & Nij & Lx).
+        rewrite E1, E2.
+        pose proof (cmp_outer_paths h a s' o' P2 Q2 pre [] N') as CO. simpl app in CO. rewrite CO; auto.
+        -- destruct (first_of_spec s' o' (children h a) N' Is' Io') as (i' & j' & Ei' & Ej' & Fo).
+           rewrite Fo, Lx. rewrite Ei in Ei'. rewrite Ej in Ej'. inversion Ei'. inversion Ej'. subst i' j'.
+           destruct (Nat.ltb_spec i j); destruct (Nat.ltb_spec j i); auto; lia.
+        -- rewrite <- E1. apply NoDup_rev. apply rooted_chain_nodup; auto.
+        -- rewrite <- E2. apply NoDup_rev. apply rooted_chain_nodup; auto.
+Qed.
+
+Theorem compare_partial : forall h s o, wf_b h = true -> s < length h -> o < length h -> listed_in_frag h s = false ->
+  root_of h s = root_of h o -> parent h (root_of h s) = None ->
+  compare_pos h s o = VVal (spec_compare_dewey h s o).
+Proof. intros h s o W. apply wf_b_iff in W. apply compare_clean; auto. Qed.
